@@ -275,5 +275,9 @@ def run(chk):
     chk.guard(r06_2, chk)
     chk.guard(r06_3, chk)
     chk.guard(r06_4, chk)
+    # the integrator reads its orbit raw (cartesian, in its own frame): the setter must keep a private converted copy
+    from .c08 import orbit_setters
+    chk.rule("D4", "(C06 dependency) the integrator's orbit is a private cartesian snapshot in the propagation frame")
+    chk.guard(orbit_setters, chk, "D4", {"KeplerNum"})
     chk.assume("theorem: a Runge-Kutta tableau of order p applied to a smooth ODE converges with order p; its hypotheses "
                "(order conditions, correct stage wiring, smooth right-hand side) are what is checked")
